@@ -41,7 +41,15 @@ type Base64Encode struct {
 // Call the the function with the arguments provided.
 func (f *Base64Encode) Call(s *slip.Scope, args slip.List, depth int) slip.Object {
 	slip.CheckArgCount(s, depth, f, args, 1, 1)
-	source := []byte(slip.CoerceToOctets(args[0]).(slip.Octets))
+	source := octetBytes(args[0])
 
 	return slip.String(base64.StdEncoding.EncodeToString(source))
+}
+
+// octetBytes coerces the argument to octets and returns the bytes. The empty
+// list coerces to nil, no bytes, and not to an octets object.
+func octetBytes(arg slip.Object) []byte {
+	octets, _ := slip.CoerceToOctets(arg).(slip.Octets)
+
+	return []byte(octets)
 }
